@@ -30,6 +30,12 @@ class ChunkedReader:
                 except StopIteration:
                     self.parser = None
                     break
+                except Exception:
+                    # the framing of this body is broken: whatever follows
+                    # on the connection must not be read as a request,
+                    # even if the application swallows this error
+                    self.req.force_close()
+                    raise
 
         data = self.buf.getvalue()
         ret, rest = data[:size], data[size:]
